@@ -406,7 +406,12 @@ def run(rep, tier, rng):
             for attempts in range(0, 7):
                 for bound in (1, 2, 4, 6, 100, 0, -3):
                     cands = (pat * 3)[:max(attempts, 1) + 2]
-                    pv = spa.Vocabulary(d, pointer_gen=iter([algs.fl(v) for v in cands]), max_similarity=float(bound))
+                    def reusing(cs):       # a generator that hands out views of one scratch buffer, overwritten at every step
+                        scratch = np.zeros((1, d))
+                        for v_ in cs:
+                            scratch[0] = algs.fl(v_)
+                            yield scratch[0]
+                    pv = spa.Vocabulary(d, pointer_gen=reusing(cands) if attempts % 2 else iter([algs.fl(v) for v in cands]), max_similarity=float(bound))
                     for i, v in enumerate(ex):
                         pv.add("E%d" % i, algs.fl(v))
                     with warnings.catch_warnings(record=True) as rec:
